@@ -207,6 +207,11 @@ class XMLParser(object):
                              self.filename, lineno, offset)
 
     def _build_foreign(self, context, base, sysid, pubid):
+        if context is not None:
+            # A reference to an external general entity that the document
+            # declares itself, not the external DTD subset: such entities
+            # are not fetched, the reference is passed over
+            return 1
         parser = self.expat.ExternalEntityParserCreate(context)
         parser.ParseFile(BytesIO(self._external_dtd))
         return 1
